@@ -87,7 +87,24 @@ def gen_census_doc(rng: random.Random, size=None):
         body = S[nm] if "properties" in S[nm] else S[nm]["allOf"][1]
         body["properties"]["broken"] = rng.choice([{"type": "array"}, {"$ref": REF + "Nowhere"}, {"enum": [1, "x"]}, {"type": "integer", "default": "no"}])
         notes.append(("broken", nm))
-    extras = rng.sample(["enum", "refnode", "badarray", "classdup", "moddup", "arr", "wrap"], rng.randint(1, 4))
+    extras = rng.sample(["enum", "refnode", "badarray", "classdup", "moddup", "arr", "wrap", "enum_vs_model", "model_vs_enum", "enum_vs_enum"], rng.randint(1, 5))
+    # class-name coincidences between an ENUM and a MODEL (both directions; the component is shuffled before or after its twin's owner)
+    plain = [nm for nm in names if "properties" in S[nm]]
+    if "enum_vs_model" in extras and plain:
+        nm = rng.choice(plain)
+        S[nm]["properties"]["status"] = {"type": "string", "enum": ["on", "off"]}        # inline enum, class <nm>Status
+        S[nm + "Status"] = OBJ({"since": {"type": "string"}})                               # component MODEL of the same class name
+        notes.append(("enum_vs_model", nm))
+    if "model_vs_enum" in extras and plain:
+        nm = rng.choice(plain)
+        S[nm]["properties"]["detail"] = OBJ({"z": {"type": "string"}})                     # inline model, class <nm>Detail
+        S[nm + "Detail"] = {"type": "string", "enum": ["d1", "d2"]}                          # component ENUM of the same class name
+        notes.append(("model_vs_enum", nm))
+    if "enum_vs_enum" in extras and plain:
+        nm = rng.choice(plain)
+        S[nm]["properties"]["grade"] = {"type": "string", "enum": ["a", "b"]}
+        S[nm + "Grade"] = {"type": "string", "enum": rng.choice([["a", "b"], ["a", "c"]])}   # equal values: shared by design; different: conflict
+        notes.append(("enum_vs_enum", nm))
     if "enum" in extras:
         S["Color"] = {"type": "string", "enum": ["red", "green"]}
         S["BadEnum"] = {"enum": [1, "a"]}
@@ -129,7 +146,14 @@ def gen_census_doc(rng: random.Random, size=None):
             op["operationId"] = oid
             opids.append(oid)
         tg = rng.choice(tags)
-        if tg:
+        r2 = rng.random()
+        if r2 < 0.15:
+            op["tags"] = []                                     # an empty list is "no tags": the default collection
+        elif r2 < 0.25:
+            op["tags"] = [rng.choice(["my tag", "my-tag", "My Tag"])]   # different tags, one sanitised identifier
+        elif r2 < 0.32 and tg:
+            op["tags"] = [tg, tg]                               # duplicate tags
+        elif tg:
             op["tags"] = [tg] + (["extra"] if rng.random() < 0.3 else [])
         params = []
         if "{pid}" in path:
@@ -220,18 +244,26 @@ def census_api(files):
 
 
 def census_models(files):
-    """models/<mod>.py -> class names defined"""
+    """models/<mod>.py -> [(class name, kind)]; kind = model (an attrs class with from_dict / to_dict) | enum (Enum subclass or Literal alias)"""
     out = {}
     for f, b in files.items():
         m = re.fullmatch(r"models/([^/]+)\.py", f)
         if not m or m.group(1) == "__init__":
             continue
+        lst = []
         try:
             tree = ast.parse(b.decode("utf-8"))
-            out[f] = [n.name for n in tree.body if isinstance(n, ast.ClassDef)] + \
-                     [t.id for n in tree.body if isinstance(n, ast.Assign) for t in n.targets if isinstance(t, ast.Name) and t.id[:1].isupper()]
+            for n in tree.body:
+                if isinstance(n, ast.ClassDef):
+                    fns = {x.name for x in n.body if isinstance(x, ast.FunctionDef)}
+                    bases = {getattr(x, "id", getattr(x, "attr", "")) for x in n.bases}
+                    kind = "enum" if any("Enum" in x for x in bases) else ("model" if {"from_dict", "to_dict"} & fns else "other")
+                    lst.append((n.name, kind))
+                elif isinstance(n, ast.Assign):
+                    lst += [(t.id, "enum") for t in n.targets if isinstance(t, ast.Name) and t.id[:1].isupper()]
         except SyntaxError:
-            out[f] = []
+            pass
+        out[f] = lst
     return out
 
 
@@ -301,7 +333,8 @@ def observe_ops(doc):
             if operation is None:
                 continue
             raw = doc["paths"][path][method]
-            tags = [utils.PythonIdentifier(value=t, prefix="tag") for t in operation.tags or ["default"]][:1]
+            raw_tags = [utils.PythonIdentifier(value=t, prefix="tag") for t in (raw.get("tags") or [])]     # what the operation declares
+            tags = (raw_tags or [utils.PythonIdentifier(value="default", prefix="tag")])[:1]
             name = op_name(path, method, raw)
             ep = Endpoint(path=path, method=method, description="", name=name, requires_security=False, tags=tags)
             # the leaf parsers are called in the order of the real loop and the Schemas / Parameters they return are threaded on,
@@ -338,7 +371,7 @@ def observe_ops(doc):
                     params_ok = not isinstance(r2, ParseError)
                     if params_ok:
                         params_ok = not isinstance(Endpoint.sort_parameters(endpoint=r2), ParseError)
-            ops.append({"key": f"{method.upper()} {path}", "name": name, "tags": [str(t) for t in tags], "params_ok": params_ok,
+            ops.append({"key": f"{method.upper()} {path}", "name": name, "tags": [str(t) for t in raw_tags], "params_ok": params_ok,
                         "responses": resps, "bodies": bodies})
     # observation of the real loop
     cols = []
@@ -368,7 +401,7 @@ def observe_ops(doc):
 def c_op(o):
     rs = "[" + "; ".join(f"({cstr(c)}, {x})" for c, x in o["responses"]) + "]" if o["responses"] else "(@nil (str * resp_outcome))"
     bs = "[" + "; ".join(f"({cstr(c)}, {x})" for c, x in o["bodies"]) + "]" if o["bodies"] else "(@nil (str * body_outcome))"
-    ts = "[" + "; ".join(cstr(t) for t in o["tags"]) + "]"
+    ts = "(sel_tags false " + ("[" + "; ".join(cstr(t) for t in o["tags"]) + "]" if o["tags"] else "(@nil str)") + ")"   # the model selects: tags or [default], first
     return f"mkOp {cstr(o['key'])} {cstr(o['name'])} {ts} {'true' if o['params_ok'] else 'false'} {rs} {bs}"
 
 
@@ -399,7 +432,7 @@ def work(job):
             return res
         api = census_api(files)
         models = census_models(files)
-        classes = {c: f for f, cs in models.items() for c in cs}
+        classes = {(c, k): f for f, cs in models.items() for c, k in cs}
         S = doc["components"]["schemas"]
         # ------------------------------------------------ schemas: generated or diagnosed; collapses
         ab = AG.Abs(doc, cfg())
@@ -425,20 +458,20 @@ def work(job):
         colliding = {nm for modf, lst in expected.items() if len({c for _, c in lst}) > 1 for nm, _ in lst}
         for name, s in S.items():
             kind, n, cls_id, cname = sinfo[name]
-            generated = (cname in classes) if cname else None
+            generated = ((cname, kind) in classes) if cname else None      # a class of the RIGHT kind: a model is not "generated" by an enum of its name
             diagnosed = names_schema(text, name)
             if cname is not None and kind is not None and name not in colliding:
                 obs.append((n["ref"], cls_id, bool(generated), diagnosed))
             if kind is None or name in colliding:
                 continue
             if not generated and not diagnosed:
-                res["problems"].append({"kind": "schema-silent", "schema": name, "class": cname})
+                res["problems"].append({"kind": "schema-silent", "schema": name, "class": cname, "ref_id": n["ref"], "cls_id": cls_id})
                 res["graph"] = ab.to_coq()
         # two distinct classes, one module file
         for modf, lst in res.get("expected_modules", {}).items():
             cn = {c for _, c in lst}
             if len(cn) > 1:
-                present = set(models.get(modf, []))
+                present = {c for c, _ in models.get(modf, [])}
                 lost = [(nm, c) for nm, c in lst if c not in present and not names_schema(text, nm)]
                 if lost:
                     res["problems"].append({"kind": "module-collision", "module": modf, "classes": sorted(cn), "lost": lost})
@@ -537,9 +570,9 @@ def work(job):
 def classify(run, r, p):
     """known finding (decided by an exact structural test that mirrors the guard of the theorem) or violation"""
     k = p["kind"]
-    if k == "schema-silent" and r.get("pressure_guard") is False:
+    if k == "schema-silent" and p.get("model_predicts_pressure_loss"):
         if run.known_finding("name_pressure_pop", f"document {r['label']}: component {p['schema']} (class {p['class']}) has no module and no diagnostic; "
-                                                  "the Coq guard g_no_name_pressure is false on the abstracted graph"):
+                                                  "g_no_name_pressure is false on the abstracted graph and the model predicts the same silent loss"):
             return
     if k == "operation-silent":
         clash = [keys for modf, keys in r.get("module_clash", []) if modf == p["module"]]
@@ -594,10 +627,14 @@ def run(run, tier, replay=None):
         for r in ex.map(work, jobs, chunksize=4):
             results.append(r)
     print("C07: %d documents generated and counted in %.1fs" % (len(results), time.time() - t0)); t0 = time.time()
-    gi = [i for i, r in enumerate(results) if r.get("graph")]
-    gfalse = set(run_cases(HDR, [f"g_no_name_pressure {results[i]['graph']}" for i in gi], shard=50)) if gi else set()
-    for k, i in enumerate(gi):
-        results[i]["pressure_guard"] = (k not in gfalse)
+    # a silent loss is the known finding only if the guard is false AND the model itself predicts exactly this loss (class not in
+    # classes_by_name, component named by no diagnostic): otherwise the implementation lost something the model keeps or reports
+    gi = [(i, p) for i, r in enumerate(results) if r.get("graph") for p in r["problems"] if p["kind"] == "schema-silent"]
+    gt = [f"(let g := {results[i]['graph']} in let r := build_schemas g in negb (g_no_name_pressure g) && negb (has (res_cbn r) {p['cls_id']}) && negb (named r {p['ref_id']}))"
+          for i, p in gi]
+    gfalse = set(run_cases(HDR, gt, shard=50)) if gi else set()
+    for k, (i, p) in enumerate(gi):
+        p["model_predicts_pressure_loss"] = (k not in gfalse)
     terms, meta = [], []
     for r in results:
         if r.get("raised"):
